@@ -33,6 +33,9 @@ def run(ctx):
         r, c = rng.randint(1, hi), rng.randint(1, hi)
         if long_:
             r, c = rng.randint(40, hi), rng.randint(40, hi)
+            if rng.random() < 0.3:
+                r, c = rng.randint(257, 340), rng.randint(257, 340)     # beyond 256 points (small-int identity, 8-bit counters)
+                ctx.count("series_longer_than_256")
         if rng.random() < 0.3:
             c = r
         nd = rng.choice([0, 0, 0, 1, 2, 3])
